@@ -75,11 +75,14 @@ def lePayOpen (leOf : Md → Option (Nat × Nat × Nat × Nat)) (openF : Nat →
 
 /-! ## The key's sealing history -/
 
+deriving instance DecidableEq for Mieru.StreamWire.Seg
+
 /-- one stream sealed under the key: its nonce base, who sealed it, what was sealed -/
 structure Stream where
   c : Nat
   fromClient : Bool
   segs : List Seg
+deriving DecidableEq
 
 /-- `(n, p)`: SOME honest holder of the key sealed plaintext `p` under nonce `n` -/
 def honestK (M : MetaCodec) (K : List Stream) (n : Nat) (p : Bytes) : Prop :=
